@@ -2,10 +2,12 @@
 //! and the property oracles. One sub-command per suite; see `out.rs` for the output protocol.
 mod arena;
 mod builder;
+mod code;
 mod irtext;
 mod visit;
 mod decode;
 mod gen;
+mod opsx;
 mod out;
 mod par;
 mod rng;
@@ -45,6 +47,11 @@ fn main() {
         "visit" => visit::main(seed, &tier, only.as_deref()),
         "visit-deep" => visit::deep(args[2].parse().unwrap()),
         "builder" => builder::main(seed, &tier, only.as_deref()),
+        "code" => code::main(seed, &tier, only.as_deref()),
+        "opsxtest" => {
+            let u = opsx::universe(1);
+            println!("supported plain ops {} typed {} unsupported {} cases {} untypable {:?}", u.supported_plain, u.typed, u.unsupported, u.cases.len(), u.untypable);
+        }
         "gentest" => {
             // generator self-test: how often are generated modules valid, what do they contain
             let mut rejected = 0;
